@@ -17,6 +17,10 @@ from dataclasses import dataclass, field
 from typing import List, Optional, Tuple, Union
 
 
+# DecimalDigit of the pattern grammar (str.isdigit accepts many more characters)
+_DIGITS = "0123456789"
+
+
 class RegExpError(Exception):
     """Exception raised for regex parsing errors."""
 
@@ -323,7 +327,7 @@ class RegexParser:
         # Check for empty {} which is invalid
         if i < len(self.pattern) and self.pattern[i] == "}":
             return True  # Will be caught as error in _parse_brace_quantifier
-        while i < len(self.pattern) and self.pattern[i].isdigit():
+        while i < len(self.pattern) and self.pattern[i] in _DIGITS:
             i += 1
         if i == self.pos + 1:  # No digits after {
             return False
@@ -333,7 +337,7 @@ class RegexParser:
             return True
         if self.pattern[i] == ",":
             i += 1
-            while i < len(self.pattern) and self.pattern[i].isdigit():
+            while i < len(self.pattern) and self.pattern[i] in _DIGITS:
                 i += 1
             if i < len(self.pattern) and self.pattern[i] == "}":
                 return True
@@ -499,10 +503,10 @@ class RegexParser:
             return Anchor("not_boundary")
 
         # Backreference
-        if ch.isdigit() and ch != "0":
+        if ch in _DIGITS and ch != "0":
             # Parse multi-digit backreference
             num = ch
-            while self._peek() is not None and self._peek().isdigit():
+            while self._peek() is not None and self._peek() in _DIGITS:
                 num += self._advance()
             group_num = int(num)
             if group_num > self.total_groups:
@@ -521,7 +525,7 @@ class RegexParser:
         # Control character
         if ch == "c":
             ctrl = self._peek()
-            if ctrl is not None and (ctrl.isalpha()):
+            if ctrl is not None and ("a" <= ctrl <= "z" or "A" <= ctrl <= "Z"):
                 self._advance()
                 return Char(chr(ord(ctrl.upper()) - 64))
             # Non-letter after \c: treat as literal \c (backslash + c)
@@ -622,7 +626,7 @@ class RegexParser:
 
         # Parse min
         min_str = ""
-        while self._peek() is not None and self._peek().isdigit():
+        while self._peek() is not None and self._peek() in _DIGITS:
             min_str += self._advance()
 
         if not min_str:
@@ -634,7 +638,7 @@ class RegexParser:
         if self._match(","):
             # Check for max
             max_str = ""
-            while self._peek() is not None and self._peek().isdigit():
+            while self._peek() is not None and self._peek() in _DIGITS:
                 max_str += self._advance()
 
             if max_str:
